@@ -163,14 +163,22 @@ def coq_make(jobs=16, timeout=3000):
 THM_RE = re.compile(r"^\s*(Theorem|Lemma|Example|Corollary)\s+([A-Za-z0-9_']+)", re.M)
 
 
-def property_obligations(pid):
-    """Compile properties/<pid>.v on its own and match every theorem in it with the
+# further statement-only files whose theorems belong to a property (same rules as properties/Cxx.v)
+EXTRA_PROPERTY_FILES = {
+    "C19": ["C19_conflicts"],                 # cost of output-conflict detection
+    "C05": ["LIFTMIN"], "C13": ["LIFTMIN"], "C14": ["LIFTMIN"],   # the build-level theorems for both load_outputs modes
+    "C01": ["SCHED"], "C02": ["SCHED"], "C15": ["SCHED"],        # schedule independence of the sequential semantics
+}
+
+
+def property_obligations_one(name):
+    """Compile properties/<name>.v on its own and match every theorem in it with the
     Print Assumptions block that follows it."""
-    path = os.path.join(COQ, "properties", pid + ".v")
+    path = os.path.join(COQ, "properties", name + ".v")
     src = strip_comments(open(path).read())
     names = [m.group(2) for m in THM_RE.finditer(src)]
     printed = re.findall(r"Print Assumptions\s+([A-Za-z0-9_']+)\s*\.", src)
-    cmd = ["coqc", "-Q", "theories", "Grog", "-Q", "properties", "GrogProps", "properties/%s.v" % pid]
+    cmd = ["coqc", "-Q", "theories", "Grog", "-Q", "properties", "GrogProps", "properties/%s.v" % name]
     t = time.time()
     p = run(cmd, cwd=COQ, timeout=1200)
     out = p.stdout
@@ -185,11 +193,30 @@ def property_obligations(pid):
             blocks.append(cur)
         elif cur is not None and line and not line.startswith(" ") and ":" in line:
             cur.append(line.split(":")[0].strip())
-    res = {"file": "coq/properties/%s.v" % pid, "cmd": " ".join(cmd), "ok": p.returncode == 0,
+    res = {"file": "coq/properties/%s.v" % name, "cmd": " ".join(cmd), "ok": p.returncode == 0,
            "theorems": names, "printed": printed, "assumptions": {}, "stderr": p.stderr[-3000:],
            "seconds": round(time.time() - t, 2)}
     for i, n in enumerate(printed):
         res["assumptions"][n] = blocks[i] if i < len(blocks) else None
+    return res
+
+
+def property_obligations(pid):
+    """properties/<pid>.v plus the further statement-only files registered for the property."""
+    res = property_obligations_one(pid)
+    res["files"] = [res["file"]]
+    for extra in EXTRA_PROPERTY_FILES.get(pid, []):
+        if not os.path.exists(os.path.join(COQ, "properties", extra + ".v")):
+            continue
+        r2 = property_obligations_one(extra)
+        res["files"].append(r2["file"])
+        res["cmd"] += " && " + r2["cmd"]
+        res["ok"] = res["ok"] and r2["ok"]
+        res["theorems"] += [n for n in r2["theorems"] if n not in res["theorems"]]
+        res["printed"] += r2["printed"]
+        res["assumptions"].update(r2["assumptions"])
+        res["stderr"] = (res["stderr"] + r2["stderr"])[-3000:]
+        res["seconds"] += r2["seconds"]
     return res
 
 
@@ -433,7 +460,9 @@ def coqchk(pid, timeout=3000):
     """Thorough tier: re-check the compiled property file and everything it depends on with the independent checker and
     collect its context summary (axioms, type-in-type, unsafe fixpoints, assumed positivity)."""
     t = time.time()
-    cmd = ["coqchk", "-silent", "-o", "-Q", "theories", "Grog", "-Q", "properties", "GrogProps", "GrogProps." + pid]
+    mods = ["GrogProps." + pid] + ["GrogProps." + x for x in EXTRA_PROPERTY_FILES.get(pid, [])
+                                  if os.path.exists(os.path.join(COQ, "properties", x + ".v"))]
+    cmd = ["coqchk", "-silent", "-o", "-Q", "theories", "Grog", "-Q", "properties", "GrogProps"] + mods
     try:
         p = run(cmd, cwd=COQ, timeout=timeout)
     except subprocess.TimeoutExpired:
